@@ -1,8 +1,8 @@
 #!/bin/bash
-# runall.sh [tier] [seed] : every claimed check once, sequentially; summary on stdout
-TIER=${1:-quick}; SEED=${2:-1}
+# runall.sh [tier] [seed] [rev] : every claimed check once, sequentially (rev: last to first); summary on stdout
+TIER=${1:-quick}; SEED=${2:-1}; ORDER=${3:-fwd}
 cd "$(dirname "$0")/.."
-for id in $(python3 -c "import json;print(' '.join(c['property_id'] for c in json.load(open('MANIFEST.json'))['checks']))"); do
+for id in $(python3 -c "import json,sys;ids=[c['property_id'] for c in json.load(open('MANIFEST.json'))['checks']];print(' '.join(ids[::-1] if sys.argv[1]=='rev' else ids))" $ORDER); do
   t0=$(date +%s)
   VERIF_SEED=$SEED ./check $id --tier $TIER > work/runall_$id.log 2>&1; rc=$?
   t1=$(date +%s)
